@@ -451,6 +451,14 @@ theorem rw_obs (s s' : St) (e : Ev) (o : Obs) (b : Book) (hk : RK s b) (hw : RW 
     simp [Ev.obs] at ho; subst ho
     simp only [step] at hs; split at hs <;> simp at hs; subst hs
     exact rw_ext s _ b _ hw hk.len (sameW_same _ _ rfl rfl) (bext_of_calls _ _ rfl rfl)
+  | newpe p e' =>
+    simp [Ev.obs] at ho; subst ho
+    simp only [step] at hs; split at hs <;> simp at hs; subst hs
+    exact rw_ext s _ b _ hw hk.len (sameW_same _ _ rfl rfl) (bext_of_calls _ _ rfl rfl)
+  | checkLike c ok =>
+    simp [Ev.obs] at ho; subst ho
+    simp only [step] at hs; split at hs <;> simp at hs; subst hs
+    exact hw
   | quiesce bb B =>
     simp [Ev.obs] at ho; subst ho
     simp only [step] at hs; split at hs <;> simp at hs; subst hs
